@@ -104,6 +104,14 @@ class World(object):
         self.ids = IdSource(seed)
         self.tool = SimXmlsec(random.Random(derive(seed, "crypto")), keyring())
         self.nodes = {}
+        self._tmp = None
+
+    def tmpdir(self):
+        """Per-run scratch directory (metadata files the nodes load); removed when the run ends."""
+        if self._tmp is None:
+            import tempfile
+            self._tmp = tempfile.mkdtemp(prefix="verif-world-")
+        return self._tmp
 
     def __enter__(self):
         seams.install()
@@ -114,6 +122,10 @@ class World(object):
 
     def __exit__(self, *a):
         seams.CTX.world, seams.CTX.node = self._prev
+        if self._tmp is not None:
+            import shutil
+            shutil.rmtree(self._tmp, ignore_errors=True)
+            self._tmp = None
         return False
 
     def on(self, node):
